@@ -236,7 +236,9 @@ impl Check for Rows {
 /// two consecutive rules agree within the tolerance. The integrand closure counts calls (rule k, consumed properly,
 /// makes k evaluations), answers NaN during rules < n-2 (no agreement is possible), 0 during rules n-2 and n-1
 /// (they agree with each other, but the rule before them was NaN), and g(x) during rule n; with a huge tolerance the
-/// integrator then returns exactly "rule n applied to g". n = 1 and n = 3 cannot be isolated this way.
+/// integrator then returns exactly "rule n applied to g". This needs two rules before rule n, so n = 1 and n = 2 cannot
+/// be isolated (the earliest possible return is after the third rule: two consecutive differences); they are judged
+/// through the number of evaluations the integrator needs on low moments instead (see `first_two`).
 #[derive(Serialize, Deserialize, Clone, Debug)]
 pub struct ConsumedPt {
     pub table: usize,
@@ -260,7 +262,7 @@ fn isolate(table: usize, n: usize, g: &dyn Fn(f64) -> f64) -> (Result<Result<f64
             g(x)
         } else if c >= lo_n {
             f64::NAN // a rule beyond n is being evaluated: the integrator did not stop where it should
-        } else if c >= lo_zero || n == 2 {
+        } else if c >= lo_zero {
             0.0
         } else {
             f64::NAN
@@ -275,21 +277,87 @@ fn isolate(table: usize, n: usize, g: &dyn Fn(f64) -> f64) -> (Result<Result<f64
     });
     (res, seen.into_inner())
 }
+/// Rules 1 and 2 as consumed: on x^k (k = 0, 1: both rules are exact; k = 2, 3: only rule 2 is) the integrator must
+/// return the exact moment after 1 + 2 + 3 evaluations (rules 1, 2, 3 agree) resp. 1 + 2 + 3 + 4 (rules 2, 3, 4 agree,
+/// rule 1 does not), and the first three abscissae are the single node of rule 1 and two distinct nodes of rule 2.
+fn first_two(table: usize, subj: &str) -> Outcome {
+    use bacon_sci::integrate::*;
+    use std::cell::RefCell;
+    let mut o = Outcome::new();
+    let tol = match table {
+        0 => 1e-11,
+        1 | 2 => 1e-8,
+        _ => 1e-12,
+    };
+    o.executions = 0;
+    for k in 0..4usize {
+        let seen: RefCell<Vec<f64>> = RefCell::new(vec![]);
+        let f = |x: f64| -> f64 {
+            seen.borrow_mut().push(x);
+            x.powi(k as i32)
+        };
+        let res = vcore::guard(|| match table {
+            0 => integrate_gaussian::<f64, _>(-1.0, 1.0, f, tol),
+            1 => integrate_hermite::<f64, _>(f, tol),
+            2 => integrate_laguerre::<f64, _>(f, tol),
+            3 => integrate_chebyshev::<f64, _>(f, tol),
+            _ => integrate_chebyshev_second::<f64, _>(f, tol),
+        });
+        o.executions += 1;
+        let seen = seen.into_inner();
+        let want = match table {
+            0 => if k % 2 == 0 { 2.0 / (k as f64 + 1.0) } else { 0.0 },
+            1 => if k % 2 == 0 { lgamma_half(k) } else { 0.0 },
+            2 => factorial(k),
+            3 => if k % 2 == 0 { (1..=k / 2).fold(std::f64::consts::PI, |r, j| r * (2.0 * j as f64 - 1.0) / (2.0 * j as f64)) } else { 0.0 },
+            _ => if k % 2 == 0 { (1..=k / 2).fold(std::f64::consts::PI / 2.0, |r, j| r * (2.0 * j as f64 - 1.0) / (2.0 * j as f64 + 2.0)) } else { 0.0 },
+        };
+        // (odd moments of the symmetric rules vanish for every rule: rule 1 is then "exact" for k = 3 as well)
+        let rule1_exact = k <= 1 || (k == 3 && table != 2);
+        let expected = if rule1_exact { 6 } else { 10 };
+        match res {
+            Err(m) => {
+                o.viol(subj, "never-panics", m);
+                break;
+            }
+            Ok(Err(e)) => {
+                o.viol(subj, "rules-1-and-2-are-consumed-as-tabulated", format!("x^{}: Err({})", k, e));
+                break;
+            }
+            Ok(Ok(v)) => {
+                if seen.len() != expected {
+                    o.viol(subj, "rules-1-and-2-are-consumed-as-tabulated", format!("x^{}: {} evaluations instead of {} (abscissae {:?})", k, seen.len(), expected, &seen[..seen.len().min(6)]));
+                    break;
+                }
+                if !(seen[1] != seen[2] && seen[0] != seen[1] && seen[0] != seen[2]) {
+                    o.viol(subj, "rules-1-and-2-are-consumed-as-tabulated", format!("x^{}: the first three abscissae {:?} are not one node and two distinct nodes", k, &seen[..3]));
+                    break;
+                }
+                if !((v - want).abs() <= 4.0 * tol * want.abs().max(1.0)) {
+                    o.viol(subj, "consumed-rule-reproduces-the-moment", format!("x^{}: got {:e}, exact {:e}", k, v, want));
+                    break;
+                }
+            }
+        }
+    }
+    o.sig = format!("{}|rules-1-and-2", TABLES[table]);
+    o
+}
 impl Check for Consumed {
     type P = ConsumedPt;
     fn name(&self) -> &'static str {
         "rules-as-consumed"
     }
     fn rule(&self) -> String {
-        "every rule n = 2 and n >= 4 of the five Gaussian tables, isolated through the public integrate_* functions by a stateful integrand (NaN / 0 / g by call count): the integrator must evaluate exactly n distinct abscissae for it and reproduce the moments k = 0, 1, 2, 2n-2, 2n-1; signature = (table, n)".into()
+        "every rule n >= 3 of the five Gaussian tables, isolated through the public integrate_* functions by a stateful integrand (NaN / 0 / g by call count): the integrator must evaluate exactly n distinct abscissae for it and reproduce the moments k = 0, 1, 2, 2n-2, 2n-1; rules 1 and 2 (which can never be the returned rule) through the evaluation count on the monomials of degree 0..3: 1 + 2 + 3 evaluations when rules 1, 2, 3 agree, 1 + 2 + 3 + 4 when only 2, 3, 4 do; signature = (table, n)".into()
     }
     fn points(&self, _t: Tier) -> Vec<ConsumedPt> {
         let mut v = vec![];
         for t in 0..5 {
-            for n in 2..=table(t).len() {
-                if n != 3 {
-                    v.push(ConsumedPt { table: t, n });
-                }
+            // n = 1 stands for the pair of rules 1 and 2 (judged by evaluation counts), n >= 3 are isolated
+            v.push(ConsumedPt { table: t, n: 1 });
+            for n in 3..=table(t).len() {
+                v.push(ConsumedPt { table: t, n });
             }
         }
         v
@@ -298,6 +366,9 @@ impl Check for Consumed {
         let mut o = Outcome::new();
         let subj = format!("integrate::{} (rule {} as consumed)", ["integrate_gaussian", "integrate_hermite", "integrate_laguerre", "integrate_chebyshev", "integrate_chebyshev_second"][p.table], p.n);
         let n = p.n;
+        if n == 1 {
+            return first_two(p.table, &subj);
+        }
         let tol = match p.table {
             0 => 2e-12,
             1 | 2 => 1e-9,
